@@ -107,7 +107,9 @@ ImConcat(g, f, n) ==
 
 ImFlatten(g) == [preds |-> ImConcat(g, 1, ImN(g)), rec |-> <<>>]
 
-ImQuery == <<"M", "Helper">>          \* main's predicates that are observed
+(* main's observed predicate: M unions main's own Helper with everything  *)
+(* imported, so any collision of a Helper shows in its rows                *)
+ImQuery == <<"M">>
 
 -----------------------------------------------------------------------------
 (* Error graphs.                                                           *)
